@@ -55,6 +55,8 @@ Fixpoint gstmt_of_sx (fuel : nat) (x : sx) : gstmt :=
     else if String.eqb k "assign" then
       SAssign (map glhs_of_sx (sx_list (sx_nth 1 x))) (map gexpr_of_sx (sx_list (sx_nth 2 x)))
     else if String.eqb k "return" then SReturn (map gexpr_of_sx (sx_list (sx_nth 1 x)))
+    else if String.eqb k "calllit" then
+      SCallLit (gcall_of_sx (sx_nth 1 x)) (map (gstmt_of_sx f) (sx_list (sx_nth 2 x)))
     else if String.eqb k "if" then
       SIf (map (gstmt_of_sx f) (sx_list (sx_nth 1 x))) (map (gstmt_of_sx f) (sx_list (sx_nth 2 x)))
     else SBlock (map (gstmt_of_sx f) (sx_list (sx_nth 1 x)))
